@@ -31,7 +31,7 @@ func init() {
 		Run:            run,
 		MinEvaluations: map[string]int{"quick": 20000, "thorough": 200000},
 		MinNontrivial:  map[string]int{"quick": 5000, "thorough": 50000},
-		RequiredObs:    []string{"aut>1", "classes!=nil", "reuse_history_steps", "edgeless_shortcut", "generators_checked", "earlier_full_result_rechecked_after_next_call"},
+		RequiredObs:    []string{"aut>1", "classes!=nil", "reuse_history_steps", "reuse:classes_buffer_refilled_in_place", "edgeless_shortcut", "generators_checked", "earlier_full_result_rechecked_after_next_call"},
 	})
 }
 
@@ -398,6 +398,21 @@ func randomClasses(r *engine.Rng, n int) [][]int {
 	return cl
 }
 
+// randomClassesK partitions 0..n-1 into exactly k non-empty classes (k <= n).
+func randomClassesK(r *engine.Rng, n, k int) [][]int {
+	cl := make([][]int, k)
+	p := r.Perm(n)
+	for i, v := range p {
+		if i < k {
+			cl[i] = append(cl[i], v)
+		} else {
+			j := r.Intn(k)
+			cl[j] = append(cl[j], v)
+		}
+	}
+	return cl
+}
+
 func min(a, b int) int {
 	if a < b {
 		return a
@@ -546,6 +561,7 @@ func reuseHistory(c *engine.Ctx, hi int) {
 	}
 	withClasses := hi%2 == 1
 	var prev *rg.G
+	var prevCl, clBuf [][]int
 	var trace []string
 	for step := 0; step < L && !c.Stopped(); step++ {
 		var g *rg.G
@@ -570,10 +586,34 @@ func reuseHistory(c *engine.Ctx, hi int) {
 		default:
 			g = gen.Random(r, 1+r.Intn(N), r.Float())
 		}
+		sameAsBefore := prev != nil && g == prev
 		prev = g
 		var cl [][]int
 		if withClasses && g.N > 0 && r.Bool(0.5) {
 			cl = randomClasses(r, g.N)
+			if sameAsBefore && prevCl != nil && len(prevCl) <= g.N && r.Bool(0.7) {
+				// the same graph again with ANOTHER colouring that has as many classes as the previous one
+				cl = randomClassesK(r, g.N, len(prevCl))
+			}
+		}
+		prevCl = cl
+		// the classes live in ONE caller-owned buffer (outer slice and inner slices) that is refilled in place for most
+		// steps; what is passed to Reset is that buffer, the judgement uses the private copy cl
+		passed := cl
+		if cl != nil {
+			if clBuf != nil && len(cl) <= cap(clBuf) && r.Bool(0.75) {
+				clBuf = clBuf[:len(cl)]
+				for i := range cl {
+					clBuf[i] = append(clBuf[i][:0], cl[i]...)
+				}
+				c.Obs("reuse:classes_buffer_refilled_in_place", 1)
+			} else {
+				clBuf = make([][]int, len(cl), len(cl)+3)
+				for i := range cl {
+					clBuf[i] = append(make([]int, 0, len(cl[i])+4), cl[i]...)
+				}
+			}
+			passed = clBuf
 		}
 		n, m := g.N, g.M()
 		trace = append(trace, fmt.Sprintf("%s/%s", g.G6(), clsString(cl)))
@@ -595,7 +635,7 @@ func reuseHistory(c *engine.Ctx, hi int) {
 			call = c.CallSlowOK
 		}
 		pi := call("aut|"+vk+"|reused", func() {
-			op.Reset(n, m, cl)
+			op.Reset(n, m, passed)
 			p, o, gs := graph.CanonicalIsomorphAllocated(n, m, nb, op, st, new(graph.CanonicalOptions))
 			reused, bad = copyResult(n, p, o, gs)
 		})
